@@ -1,6 +1,7 @@
 import GomlVerif.Lemmas.C06Main
 import GomlVerif.Lemmas.C06Total
 import GomlVerif.Lemmas.C06Sem
+import GomlVerif.Lemmas.C06NoBind
 import Std.Data.String.ToNat
 /-!
 # C06 — pattern matching picks the first matching arm and binds the right sub-values
@@ -345,6 +346,40 @@ theorem realGen_ne (j : Nat) (y : String) (c : Char) (s : List Char) (hy : y.toL
   rw [h, hy] at hs
   simp only [List.cons.injEq] at hs
   exact hc hs.1
+
+/-! ## the output-side hypotheses follow from the input -/
+
+/-- **`leavesOK` is a property of the input**: if a predicate `CV` holds of every variable the
+    matrix tests and of every generated name, and of no pattern variable (source locals are
+    `hint/index`, temporaries `x{n}` / `mtmp{n}`), no leaf of the tree rebinds a column variable. -/
+theorem compileRows_leavesOK (S : Sig) (CV : String → Prop) (hgen : ∀ j, CV (S.gen j))
+    (fuel : Nat) (ty : Ty) (n : Nat) (rows : List (Row β)) (t : DT β) (n' : Nat)
+    (hc : compileRows S fuel ty n rows = some (.ok (t, n'))) (hsep : ∀ r ∈ rows, RowSep CV r) :
+    leavesOK t = true :=
+  compileRows_leaves S CV hgen fuel ty n rows t n' hc hsep
+
+/-- the main theorem with hypotheses on the input only -/
+theorem compileRows_correct_input (S : Sig) (hinj : ∀ i j, S.gen i = S.gen j → i = j)
+    (CV : String → Prop) (hgen : ∀ j, CV (S.gen j))
+    (fuel : Nat) (ty : Ty) (n : Nat) (rows : List (Row β)) (t : DT β) (n' : Nat)
+    (hc : compileRows S fuel ty n rows = some (.ok (t, n'))) (ρ : Env)
+    (hsep : ∀ r ∈ rows, RowSep CV r)
+    (hfresh : ∀ r ∈ rows, RowFresh S.gen n r) (hconf : ∀ r ∈ rows, RowConf S ρ r) :
+    match firstMatch ρ rows with
+    | none => t.eval ρ = .missing
+    | some (b, σ) => ∃ σ' τ, t.eval ρ = .body b (σ' ++ τ ++ ρ) ∧ (∀ x, x ∈ σ' ↔ x ∈ σ) ∧
+        (∀ p ∈ τ, ∃ j, n ≤ j ∧ j < n' ∧ p.1 = S.gen j) :=
+  compileRows_correct S hinj fuel ty n rows t n' hc
+    (compileRows_leavesOK S CV hgen fuel ty n rows t n' hc hsep) ρ hfresh hconf
+
+/-- the tree binds only generated names: it never shadows the runtime function `missing` -/
+theorem compileRows_noBind_missing (S : Sig) (hy : ∀ j, S.gen j ≠ "missing")
+    (fuel : Nat) (ty : Ty) (n : Nat) (rows : List (Row Expr)) (t : DT Expr) (n' : Nat)
+    (hc : compileRows S fuel ty n rows = some (.ok (t, n'))) : t.noBind "missing" = true :=
+  compileRows_noBind S "missing" hy fuel ty n rows t n' hc
+
+theorem realGen_ne_missing (j : Nat) : realGen j ≠ "missing" :=
+  realGen_ne j "missing" 'm' _ rfl (by decide)
 
 /-! ## non-vacuity: matrices of corpus programs 007 and 051 -/
 
